@@ -556,6 +556,8 @@ class Exec:
             idict = getattr(t, "__dict__", None)
             n_dict = sum(1 for o in rest if o is idict)
             rest = [o for o in rest if o is not idict]
+            if idict:      # an instance dict that is not materialised is reported value by value (CPython >= 3.11)
+                rest = [o for o in rest if not any(o is a for a in idict.values())]
             bad = []
             if n_ty > (1 if heap else 0): bad.append("the type object is reported %d time(s), owned %d" % (n_ty, 1 if heap else 0))
             if n_dict > 1: bad.append("the instance dict is reported %d times" % n_dict)
